@@ -2,7 +2,7 @@
 import sympy as sp
 
 from ..facts import AnalysisBroken, walk, strip_targs
-from ..pp import pp, skip
+from ..pp import pp, skip, canon_text as CT
 from ..util import (args, assignment, callee, incdec, is_call, obj, strip_not, literal_value, find_var, parameter_name, writes_in,
                     root_of, unwrap_view)
 from ..util import ref_decl_v as ref_decl
@@ -166,8 +166,8 @@ def rule_solver_flags(F, R):
                 names = [fl["n"] for fl in pt[0]["fields"]] if pt else []
                 if "m_status" in names:
                     sb = v["bindings"][names.index("m_status")]["n"]
-        okc = sb is not None and "converged" in vars_ and pp(vars_["converged"]["c"][0]) == "(%s == nano::csearch_status::converged)" % sb
-        oki = sb is not None and "iter_ok" in vars_ and pp(vars_["iter_ok"]["c"][0]) == "(%s != nano::csearch_status::failed)" % sb
+        okc = sb is not None and "converged" in vars_ and pp(vars_["converged"]["c"][0]) == CT("(%s == nano::csearch_status::converged)" % sb)
+        oki = sb is not None and "iter_ok" in vars_ and pp(vars_["iter_ok"]["c"][0]) == CT("(%s != nano::csearch_status::failed)" % sb)
         dn = [c for c in f.calls(lambda x: callee(x) == "nano::solver_t::done")]
         okd = len(dn) == 1 and [pp(x) for x in args(dn[0])[1:3]] == ["iter_ok", "converged"]
         R.check(okc and oki and okd, "R-C03-3", inst, f.loc(), "converged = (status == converged), iter_ok = (status != failed) of the search just performed",
@@ -265,7 +265,7 @@ def rule_two_cuts(F, R):
     z, det = kalg.compare_expr(f, vars_["b"]["c"][0], "-p/q", seed=R.seed, inline=False)
     R.check(bool(z), "R-C03-6", "two-cut stationary point", f.loc(vars_["b"]), "t* = -p/q", "stationary point is " + pp(vars_["b"]["c"][0]))
     a = skip(vars_["a"]["c"][0])
-    oka = a["k"] == "cond" and all(s_ in pp(a["c"][0]) for s_ in ("isfinite(b)", "(b >= 0", "(b <= 1")) and pp(a["c"][1]) == "b"
+    oka = a["k"] == "cond" and all(s_ in pp(a["c"][0]) for s_ in ("isfinite(b)", "(0 <= b)", "(b <= 1)")) and pp(a["c"][1]) == "b"
     if oka:
         inner = skip(a["c"][2])
         oka = inner["k"] == "cond" and literal_value(inner["c"][1]) == 0 and literal_value(inner["c"][2]) == 1
@@ -422,8 +422,8 @@ def rule_capacity(F, R):
     okp = False
     for g in lam:
         rets = [x for x in g.nodes() if x["k"] == "return"]
-        if rets and pp(rets[0]["c"][0]).startswith("(m_bundleE("):
-            okp = pp(rets[0]["c"][0]) in ("(m_bundleE(%s) >= thres)" % g.params[0]["n"], "(thres <= m_bundleE(%s))" % g.params[0]["n"])
+        if rets and "m_bundleE(" in pp(rets[0]["c"][0]):
+            okp = pp(rets[0]["c"][0]) == CT("(m_bundleE(%s) >= thres)" % g.params[0]["n"])
     thres = [cap for l_ in dl.nodes() if l_["k"] == "lambda" for cap in l_.get("caps", [])]
     R.check(okp, "R-C03-8", "removal predicate", dl.loc(), "a cut is removed iff its error is >= the threshold (ties with the threshold are removed too)",
             "the removal predicate is strict (error > threshold - 1e-15): for errors larger than ~10 the absolute epsilon is below one ulp, cuts equal to "
